@@ -683,6 +683,24 @@ func (vc *VC) callFunc(fr *Frame, st *State, x *ssa.Call, callee *ssa.Function, 
 // cutPoints checks, then assumes, the contract's assertions attached to a call site.
 func (vc *VC) cutPoints(fr *Frame, st *State, keys []string, prefix string) {
 	for _, key := range keys {
+		for _, gd := range fr.con.Ghosts[prefix+key] {
+			env := vc.loopEnvAt(fr, st)
+			for n, v := range fr.specVars {
+				env.vars[n] = v
+			}
+			for i, a := range fr.cutArgs {
+				env.vars[fmt.Sprintf("$arg%d", i)] = a
+			}
+			v := env.eval(gd.E)
+			if env.err != nil || v == nil {
+				vc.oblige(st, "spec-error", "ghost/"+gd.Name, "false", gd.Pos, fmt.Sprint(env.err))
+				continue
+			}
+			// ghost variables are ordinary specification variables from here on
+			fr.specVars[gd.Name] = v
+		}
+	}
+	for _, key := range keys {
 		for _, c := range fr.con.Asserts[prefix+key] {
 			env := vc.loopEnvAt(fr, st)
 			for n, v := range fr.specVars {
